@@ -78,7 +78,7 @@ struct Args {
 
 fn usage() -> ! {
     eprintln!(
-        "usage: harness_db gen --prop <C08|C09|C11|C13> --seed <u64> --tier quick|thorough --out <dir> [--corpus <dir>]\n       harness_db replay --prop <ID> --ops <file> --out <dir>"
+        "usage: harness_db gen --prop <C06|C08|C09|C11|C13> --seed <u64> --tier quick|thorough --out <dir> [--corpus <dir>]\n       harness_db replay --prop <ID> --ops <file> --out <dir>"
     );
     std::process::exit(2);
 }
@@ -158,31 +158,122 @@ fn bump(h: &mut BTreeMap<String, u64>, k: &str, n: u64) {
     }
 }
 
-fn run_one_case(
+/// the six database variants of C06
+#[derive(Clone, Copy, PartialEq, Eq, Debug)]
+enum Variant {
+    Memory,
+    File,
+    Mapped,
+    AnyMemory,
+    AnyFile,
+    AnyMapped,
+}
+
+impl Variant {
+    fn name(&self) -> &'static str {
+        match self {
+            Variant::Memory => "DbMemory",
+            Variant::File => "DbFile",
+            Variant::Mapped => "Db",
+            Variant::AnyMemory => "DbAny::new_memory",
+            Variant::AnyFile => "DbAny::new_file",
+            Variant::AnyMapped => "DbAny::new",
+        }
+    }
+    fn persistent(&self) -> bool {
+        !matches!(self, Variant::Memory | Variant::AnyMemory)
+    }
+    const OTHERS: [Variant; 5] = [
+        Variant::File,
+        Variant::Mapped,
+        Variant::AnyMemory,
+        Variant::AnyFile,
+        Variant::AnyMapped,
+    ];
+}
+
+/// runs the whole case on one database; `reopen` lines close and reopen persistent variants
+fn drive<S: agdb::StorageData>(
+    ctx: &mut CaseCtx,
+    open: &dyn Fn() -> agdb::DbImpl<S>,
+    persistent: bool,
+) {
+    let mut db = open();
+    loop {
+        match ctx.run(&mut db) {
+            RunExit::Done => break,
+            RunExit::Reopen => {
+                if persistent {
+                    drop(db);
+                    db = open();
+                    ctx.st.bump("reopens_performed", 1);
+                }
+            }
+        }
+    }
+}
+
+fn drive_variant(ctx: &mut CaseCtx, v: Variant, path: &str) {
+    match v {
+        Variant::Memory => drive(
+            ctx,
+            &|| agdb::DbMemory::new("verif_db").expect("harness: cannot create DbMemory"),
+            false,
+        ),
+        Variant::File => drive(
+            ctx,
+            &|| agdb::DbFile::new(path).expect("harness: cannot open DbFile"),
+            true,
+        ),
+        Variant::Mapped => drive(
+            ctx,
+            &|| agdb::Db::new(path).expect("harness: cannot open Db"),
+            true,
+        ),
+        Variant::AnyMemory => drive(
+            ctx,
+            &|| agdb::DbAny::new_memory("verif_db_any").expect("harness: cannot create DbAny memory"),
+            false,
+        ),
+        Variant::AnyFile => drive(
+            ctx,
+            &|| agdb::DbAny::new_file(path).expect("harness: cannot open DbAny file"),
+            true,
+        ),
+        Variant::AnyMapped => drive(
+            ctx,
+            &|| agdb::DbAny::new(path).expect("harness: cannot open DbAny mapped"),
+            true,
+        ),
+    }
+}
+
+struct CaseRun {
+    lines: Vec<String>,
+    outs: Vec<String>,
+    violations: Vec<Violation>,
+    st: CaseStats,
+    panic: Option<String>,
+    timed_out: bool,
+}
+
+/// one case on one variant in a watched worker thread
+#[allow(clippy::too_many_arguments)]
+fn run_on_variant(
     prop: Prop,
     case_no: u64,
-    plan: Plan,
+    base_line: usize,
+    source: Source,
+    has_case_line: bool,
+    variant: Variant,
     out_dir: &Path,
     check_every: u64,
-    totals: &mut Totals,
-) {
-    let base_line = totals.ops.len();
+) -> CaseRun {
     let progress = Arc::new(Mutex::new(Progress::default()));
-    let (replay_lines, has_case_line) = match &plan {
-        Plan::Replay {
-            lines,
-            has_case_line,
-        } => (Some(lines.clone()), *has_case_line),
-        Plan::Gen { .. } => (None, true),
-    };
-    let source = match plan {
-        Plan::Replay { lines, .. } => Source::Replay(VecDeque::from(lines)),
-        Plan::Gen { seed, thorough } => Source::Gen(Box::new(Generator::new(seed, prop, thorough))),
-    };
-    let file_case = case_no % 2 == 1;
     let tmp_dir = out_dir.join("tmp");
-    let db_path = tmp_dir.join(format!("case_{case_no}.agdb"));
-    let wal_path = tmp_dir.join(format!(".case_{case_no}.agdb"));
+    let tag = format!("case_{case_no}_{:?}", variant).to_lowercase();
+    let db_path = tmp_dir.join(format!("{tag}.agdb"));
+    let wal_path = tmp_dir.join(format!(".{tag}.agdb"));
     let (tx, rx) = mpsc::channel::<(CaseStats, Option<String>)>();
     let progress_w = progress.clone();
     let db_path_w = db_path.clone();
@@ -192,21 +283,14 @@ fn run_one_case(
         .stack_size(32 << 20)
         .spawn(move || {
             let mut ctx = CaseCtx::new(prop, case_no, base_line, progress_w, source, check_every);
+            ctx.exit_on_reopen = true;
             if has_case_line {
                 ctx.push_case_line();
             }
             let result = std::panic::catch_unwind(AssertUnwindSafe(|| {
-                if file_case {
-                    let _ = std::fs::remove_file(&db_path_w);
-                    let _ = std::fs::remove_file(&wal_path_w);
-                    let mut db = agdb::DbFile::new(db_path_w.to_str().unwrap())
-                        .expect("harness: cannot create DbFile");
-                    ctx.run(&mut db);
-                } else {
-                    let mut db =
-                        agdb::DbMemory::new("verif_db").expect("harness: cannot create DbMemory");
-                    ctx.run(&mut db);
-                }
+                let _ = std::fs::remove_file(&db_path_w);
+                let _ = std::fs::remove_file(&wal_path_w);
+                drive_variant(&mut ctx, variant, db_path_w.to_str().unwrap());
             }));
             let panic = match result {
                 Ok(()) => None,
@@ -227,12 +311,11 @@ fn run_one_case(
         }
         Err(_) => (CaseStats::default(), None, true), // worker abandoned
     };
-    if file_case && !timed_out {
+    if !timed_out {
         let _ = std::fs::remove_file(&db_path);
         let _ = std::fs::remove_file(&wal_path);
     }
-
-    let (mut lines, mut outs, violations) = {
+    let (lines, outs, violations) = {
         let mut p = progress.lock().unwrap();
         (
             std::mem::take(&mut p.lines),
@@ -240,6 +323,70 @@ fn run_one_case(
             std::mem::take(&mut p.violations),
         )
     };
+    CaseRun {
+        lines,
+        outs,
+        violations,
+        st,
+        panic,
+        timed_out,
+    }
+}
+
+fn run_one_case(
+    prop: Prop,
+    case_no: u64,
+    plan: Plan,
+    out_dir: &Path,
+    check_every: u64,
+    totals: &mut Totals,
+) {
+    let base_line = totals.ops.len();
+    let (replay_lines, has_case_line) = match &plan {
+        Plan::Replay {
+            lines,
+            has_case_line,
+        } => (Some(lines.clone()), *has_case_line),
+        Plan::Gen { .. } => (None, true),
+    };
+    let source = match plan {
+        Plan::Replay { lines, .. } => Source::Replay(VecDeque::from(lines)),
+        Plan::Gen { seed, thorough } => {
+            if prop == Prop::C06 {
+                // every generator of the group in turn, plus close/reopen lines
+                let profile = [Prop::C13, Prop::C11, Prop::C08, Prop::C09][(case_no % 4) as usize];
+                let mut g = Generator::new(seed, profile, thorough);
+                g.reopen_pct = 4;
+                Source::Gen(Box::new(g))
+            } else {
+                Source::Gen(Box::new(Generator::new(seed, prop, thorough)))
+            }
+        }
+    };
+    let file_case = prop != Prop::C06 && case_no % 2 == 1;
+    let primary = if file_case {
+        Variant::File
+    } else {
+        Variant::Memory
+    };
+    let run = run_on_variant(
+        prop,
+        case_no,
+        base_line,
+        source,
+        has_case_line,
+        primary,
+        out_dir,
+        check_every,
+    );
+    let CaseRun {
+        mut lines,
+        mut outs,
+        mut violations,
+        st,
+        panic,
+        timed_out,
+    } = run;
     let mut hist = st.hist.clone();
     if timed_out {
         // the abandoned worker's statistics are lost; count its lines at least
@@ -281,9 +428,85 @@ fn run_one_case(
     );
     bump(&mut hist, "cases", 1);
 
+    // C06: the same op lines on the five other variants, every output line must be identical
+    if prop == Prop::C06 {
+        let body: Vec<String> = lines[has_case_line as usize..].to_vec();
+        bump(&mut hist, "variant_runs", 1);
+        for v in Variant::OTHERS {
+            let r = run_on_variant(
+                prop,
+                case_no,
+                base_line,
+                Source::Replay(VecDeque::from(body.clone())),
+                has_case_line,
+                v,
+                out_dir,
+                check_every,
+            );
+            bump(&mut hist, "variant_runs", 1);
+            bump(&mut hist, &format!("variant_runs:{}", v.name()), 1);
+            bump(
+                &mut hist,
+                &format!("reopens_performed:{}", v.name()),
+                r.st.hist.get("reopens_performed").copied().unwrap_or(0),
+            );
+            let mut vouts = r.outs;
+            if r.timed_out {
+                vouts.push("timeout".to_string());
+                bump(&mut hist, &format!("variant_timeouts:{}", v.name()), 1);
+            } else if let Some(site) = &r.panic {
+                vouts.push(format!("panic:{}", panic_site(site)));
+                bump(&mut hist, &format!("variant_panics:{}", v.name()), 1);
+            }
+            let mut reported = 0;
+            for i in 0..lines.len() {
+                let want = &outs[i];
+                let got = vouts.get(i).map(|s| s.as_str()).unwrap_or("<missing>");
+                bump(&mut hist, "variant_lines_compared", 1);
+                if want != got {
+                    bump(&mut hist, "divergences", 1);
+                    bump(&mut hist, &format!("divergences:{}", v.name()), 1);
+                    if reported < 3 {
+                        reported += 1;
+                        let (e, o) = if want.len() > 200 || got.len() > 200 {
+                            let p = want
+                                .bytes()
+                                .zip(got.bytes())
+                                .take_while(|(a, b)| a == b)
+                                .count()
+                                .saturating_sub(40);
+                            (
+                                want.chars().skip(p).take(160).collect::<String>(),
+                                got.chars().skip(p).take(160).collect::<String>(),
+                            )
+                        } else {
+                            (want.clone(), got.to_string())
+                        };
+                        violations.push(Violation {
+                            case: case_no,
+                            line: base_line + i,
+                            key: format!("C06/variant-divergence/{}", v.name()),
+                            rule: format!(
+                                "every storage variant returns the same result / error as DbMemory for `{}`",
+                                lines[i].chars().take(80).collect::<String>()
+                            ),
+                            expected: e,
+                            observed: o,
+                        });
+                    }
+                }
+            }
+        }
+    }
+
     // distinctness: hash of the op text without the `case n` line
+    let nontrivial = if prop == Prop::C06 {
+        !timed_out && panic.is_none() && st.hist.get("new_elements").copied().unwrap_or(0) > 0
+    } else {
+        st.nontrivial
+    };
     let body: &[String] = if has_case_line { &lines[1..] } else { &lines[..] };
-    if st.nontrivial {
+    if nontrivial {
         let mut h = std::collections::hash_map::DefaultHasher::new();
         body.hash(&mut h);
         if totals.nontrivial_hashes.insert(h.finish()) && totals.samples_nontrivial.len() < 5 {
@@ -296,7 +519,7 @@ fn run_one_case(
             .samples_other
             .push(lines.iter().take(25).cloned().collect());
     }
-    totals.evaluations += st.evaluations;
+    totals.evaluations += st.evaluations * if prop == Prop::C06 { 6 } else { 1 };
     for (k, v) in hist {
         bump(&mut totals.hist, &k, v);
     }
@@ -331,6 +554,9 @@ fn nontrivial_rule(prop: Prop) -> &'static str {
         }
         Prop::C11 => {
             "case replaced or removed (remove_values / element removal) a value stored under a currently indexed key, hash of the case's op text"
+        }
+        Prop::C06 => {
+            "case created at least one element and completed on DbMemory without panic/timeout; it was then replayed on DbFile, Db (memory mapped), DbAny::new_memory, DbAny::new_file and DbAny::new (`reopen` lines close and reopen the four file-backed variants); hash of the case's op text"
         }
         Prop::C13 => {
             "case contains a failing transaction that had performed at least one successful mutation before failing, or a failing single mutating query whose first item was applicable (work done before the failure), hash of the case's op text"
@@ -489,7 +715,12 @@ fn main() {
             }
         }
         let mut master = rng::Rng::new(args.seed);
-        let n_cases = if args.thorough { 6000 } else { 400 };
+        let n_cases = match (args.prop, args.thorough) {
+            (Prop::C06, false) => 300,
+            (Prop::C06, true) => 2000,
+            (_, false) => 400,
+            (_, true) => 6000,
+        };
         let check_every = if args.thorough { 8 } else { 1 };
         for _ in 0..n_cases {
             let seed = master.next_u64();
